@@ -5,6 +5,7 @@
 //!   verif-harness record <module> <driver> <seed> <quick|thorough> <out.ndjson>
 //!   verif-harness rerun  <module> <in.ndjson> <out.ndjson>
 //!   verif-harness graph  <module> <graph.json> <seed> <quick|thorough>
+mod adsr;
 mod exact;
 mod graphrun;
 mod lfo;
@@ -50,6 +51,7 @@ fn main() {
             let stats = match module {
                 "midi" => midi::record(driver, seed, thorough, &mut out),
                 "lfo" => lfo::record(driver, seed, thorough, &mut out),
+                "adsr" => adsr::record(driver, seed, thorough, &mut out),
                 _ => usage(),
             };
             let n = out.finish();
@@ -66,6 +68,7 @@ fn main() {
             match args[2].as_str() {
                 "midi" => midi::rerun(&lines, &mut out),
                 "lfo" => lfo::rerun(&lines, &mut out),
+                "adsr" => adsr::rerun(&lines, &mut out),
                 _ => usage(),
             }
             out.finish();
